@@ -188,13 +188,35 @@ def monitor(script):
                 m.hit("C07:detached", f"stream announced header {e} whose parent {p} is not in the subscriber's chain")
                 chain_valid = False
 
-    def check_dump(d, line):
+    def check_dump(d, line, sampled=False):
         nonlocal chain, chain_valid, accepted
         tipid = int(d.tip) if d.tip != "?" else None
+        if sampled:
+            # a sampled dump (very long chains): every listed entry is checked, adjacency only where both heights are listed
+            for k, v in d.at.items():
+                if k > d.h:
+                    continue
+                if not v.lstrip("-").isdigit():
+                    if not latest_mode:
+                        m.hit("C01:at-missing", f"Hash({k}) on the best chain (tip height {d.h}) returned `{v}`")
+                    continue
+                kid = int(v)
+                th = height(kid)
+                if th is not None and th != k:
+                    m.hit("C01:at-height", f"Hash({k}) = {kid} whose true height is {th}")
+                nxt = d.at.get(k + 1)
+                if nxt is not None and nxt.lstrip("-").isdigit() and int(nxt) in defs and defs[int(nxt)][0] != kid and k + 1 <= d.h:
+                    m.hit("C01:unlinked", f"header at height {k+1} ({nxt}) has prev {defs[int(nxt)][0]} but Hash({k}) = {kid}")
+                if chain_valid and k < len(chain) and chain[k] != kid:
+                    m.hit("C07:chain-mismatch", f"chain reconstructed from the stream has {chain[k]} at height {k}, the repository reports {kid}")
+            if d.at.get(d.h) is not None and d.at[d.h].isdigit() and tipid is not None and int(d.at[d.h]) != tipid:
+                m.hit("C01:tip-at", f"Hash(tip height {d.h}) = {d.at[d.h]} but LastHash = {d.tip}")
+            if chain_valid and (len(chain) - 1 != d.h or (tipid is not None and chain[-1] != tipid)):
+                m.hit("C07:chain-mismatch", f"chain reconstructed from the stream ends at {chain[-1]} (height {len(chain)-1}), the repository reports tip {d.tip} (height {d.h})")
         # ---- C01: linked ancestry, maximal work
         ids_at = []
-        ok_at = True
-        for k in range(min(d.at) if d.at else 0, d.h + 1):
+        ok_at = not sampled
+        for k in (range(min(d.at) if d.at else 0, d.h + 1) if not sampled else []):
             v = d.at.get(k)
             if v is None or not v.lstrip("-").isdigit():
                 if not latest_mode:
@@ -203,7 +225,7 @@ def monitor(script):
                 ids_at.append(None)
                 continue
             ids_at.append(int(v))
-        if d.at.get(d.h + 1) not in ("beyond",):
+        if d.at.get(d.h + 1) not in ("beyond",) and not (sampled and (d.h + 1) not in d.at):
             m.hit("C01:beyond", f"Hash(tip+1) returned {d.at.get(d.h + 1)}")
         if ok_at:
             if ids_at[0] != 0 and not latest_mode:
@@ -254,6 +276,13 @@ def monitor(script):
                     m.hit("C17:reported-in-chain", f"CheckHeader({i}) reports in-most-work-chain for a header under an invalid mark")
                     break
         # ---- C09: lookups agree with the tree
+        tip_anc = set()
+        if tipid is not None:
+            cur = tipid
+            while cur in defs and cur not in tip_anc:
+                tip_anc.add(cur)
+                cur = defs[cur][0]
+            tip_anc.add(cur)
         for i in d.hh:
             th = height(i)
             known = i in accepted
@@ -267,7 +296,7 @@ def monitor(script):
             if d.hh[i] != th:
                 m.hit("C09:height", f"HashHeight({i}) = {d.hh[i]}, true height {th}")
             c = d.ch.get(i)
-            onbest = tipid is not None and is_anc(i, tipid)
+            onbest = tipid is not None and i in tip_anc
             if c is not None:
                 if c[0] == "unknown":
                     m.hit("C09:check-unknown", f"CheckHeader({i}) = unknown for an accepted header")
@@ -297,6 +326,8 @@ def monitor(script):
                 m.hit("C07:chain-mismatch", f"chain reconstructed from the stream (tip {chain[-1]}, len {len(chain)}) differs from the reported best chain (tip {ids_at[-1]}, len {len(ids_at)})")
         if ok_at:
             chain, chain_valid = list(ids_at), True
+        elif sampled and not chain_valid:
+            pass
 
     dropped = set()   # ids that a load legitimately may have dropped (tracked loosely)
     pending_cmp = None  # (kind, dump) to compare with the next dump
@@ -573,12 +604,35 @@ def monitor(script):
             invalid.discard(int(a["id"]))
         elif verb == "dump":
             d = Dump(oraw)
+            sampled = "step" in a and int(a["step"]) > 1
             if relearn:
                 relearn = False
                 accepted = {i for i, h in d.hh.items() if h != -1}
+                if sampled:
+                    accepted |= {i for i in accepted_at_save if i not in d.hh}
                 dropped = accepted_before_load - accepted
                 # C11: everything on the best chain and every retrievable side header must still be known
-            check_dump(d, line)
+            check_dump(d, line, sampled)
+            if pending_cmp is not None and sampled:
+                # compare what both dumps list
+                kind, before = pending_cmp
+                pid = "C11" if kind in ("load", "save") else "C10"
+                if (before.h, before.tip, before.work) != (d.h, d.tip, d.work):
+                    m.hit(f"{pid}:{kind}-tip", f"tip before `{kind}` {(before.h, before.tip)} and after {(d.h, d.tip)} differ")
+                ks = [k for k in before.at if k in d.at and before.at[k] != d.at[k]]
+                if ks:
+                    m.hit(f"{pid}:{kind}-at", f"`{kind}` changed Hash(height) at heights {ks[:6]}: {[(before.at.get(k), d.at.get(k)) for k in ks[:3]]}")
+                for i in before.hh:
+                    if i in d.hh and before.hh[i] != d.hh[i] and before.hh[i] != -1:
+                        onbest = before.ch.get(i, (None, False))[-1] is True
+                        if kind != "load" or onbest or d.hh[i] != -1:
+                            m.hit(f"{pid}:{kind}-height", f"`{kind}` changed HashHeight({i}) {before.hh[i]} -> {d.hh[i]}")
+                            break
+                for i in before.ch:
+                    if i in d.ch and before.ch[i] != d.ch[i] and before.ch[i][0] != "unknown" and (kind != "load" or d.ch[i][0] != "unknown"):
+                        m.hit(f"{pid}:{kind}-check", f"`{kind}` changed CheckHeader({i}) {before.ch[i]} -> {d.ch[i]}")
+                        break
+                pending_cmp = None
             if pending_cmp is not None:
                 kind, before = pending_cmp
                 pid = "C11" if kind == "load" else ("C11" if kind == "save" else "C10")
